@@ -352,7 +352,15 @@ class ClientWebSocketResponse(Generic[_DecodeText]):
         try:
             async with async_timeout.timeout(self._timeout.ws_close):
                 while True:
-                    msg = await self._reader.read()
+                    try:
+                        msg = await self._reader.read()
+                    except EofStream:
+                        if self._close_code and not self._reader.is_eof():
+                            # Woken, but a receive() of another task took the
+                            # peer's close frame and stored its code.
+                            self._response.close()
+                            return True
+                        raise
                     if msg.type is WSMsgType.CLOSE:
                         self._close_code = msg.data
                         self._response.close()
@@ -417,7 +425,10 @@ class ClientWebSocketResponse(Generic[_DecodeText]):
                 self._close_code = WSCloseCode.ABNORMAL_CLOSURE
                 raise
             except EofStream:
-                self._close_code = WSCloseCode.OK
+                # Could be closed by another task while awaiting reader;
+                # that close() owns the close code then.
+                if not self._closed:
+                    self._close_code = WSCloseCode.OK
                 await self.close()
                 return WS_CLOSED_MESSAGE
             except ClientError:
